@@ -227,6 +227,22 @@ func (gen *Gen) Value(tn string, f *FieldInfo, class string, depth, variant int)
 		}
 		return gen.Typical(f.Elem, depth+1, variant), true
 	case "ptr":
+		if f.Elem == "SdsConfig" && class != "zero" {
+			// what an xDS-style secret source looks like (jsonpb form of a core.ConfigSource); the TLS context stays disabled
+			src := func(uri string) obj {
+				return obj{"apiConfigSource": obj{"apiType": "GRPC", "grpcServices": []interface{}{
+					obj{"googleGrpc": obj{"targetUri": uri, "statPrefix": "sdsstat",
+						"channelCredentials": obj{"localCredentials": obj{}},
+						"callCredentials":    []interface{}{obj{"googleComputeEngine": obj{}}}}}}}}
+			}
+			if class == "bound" { // only a certificate source; escapes, numbers at the float boundary, empty payload parts
+				return obj{"CertificateConfig": obj{"name": "b<\"&>é\\ \n" + fmt.Sprint(variant),
+					"sdsConfig": obj{"initialFetchTimeout": "0s", "n": uint64(9007199254740992), "f": 1e-7, "empty": obj{}, "l": []interface{}{}}},
+					"ValidationConfig": nil}, true
+			}
+			return obj{"CertificateConfig": obj{"name": "default", "sdsConfig": src("/var/run/sds/uds_path")},
+				"ValidationConfig": obj{"name": "ROOTCA", "sdsConfig": src("/var/run/sds/uds_path")}}, true
+		}
 		if f.Elem == "MetadataConfig" && class != "zero" {
 			return obj{"filter_metadata": obj{"mosn.lb": obj{"zone": fmt.Sprintf("z%d", variant), "k": "v<&>"}}}, true
 		}
